@@ -143,7 +143,6 @@ func (e *Encoder) writeObject(data interface{}) (int, error) {
 	clsName, ok := e.nameMap[typ.Name()]
 	if !ok {
 		clsName = typ.Name()
-		e.nameMap[clsName] = clsName
 	}
 	length, ok := e.existClassDef(clsName)
 	var err error
